@@ -562,6 +562,8 @@ class TransportSim:
             if cv[0] not in sv:  # incompatible negotiation needs a VN packet: see server_accept
                 if not p.get("allow_vn"):
                     sv = [cv[0]] + [v for v in sv if v != cv[0]]
+                elif not set(cv) & set(sv) and not p.get("allow_no_common_version"):
+                    sv = list(sv) + [cv[-1]]  # Version Negotiation must be able to succeed
         else:
             cv, sv = [V1, V2], [V1, V2]
         cfg["client_versions"], cfg["server_versions"] = cv, sv
@@ -587,6 +589,11 @@ class TransportSim:
         cfg["server_idle"] = it[c.choose(len(it))]
         cfg["initial_rtt"] = (0.1, 0.05, 0.333)[c.choose(3)]
         cfg["retry"] = bool(p.get("retry_p")) and c.chance(p["retry_p"])
+        if cfg["retry"] and not p.get("rebind_with_retry"):
+            # a Retry token is bound to the client's address: an address change between Retry and its
+            # use makes the handshake impossible by design (the client accepts only one Retry), so
+            # liveness could not be judged
+            cfg["rebinds"] = []
 
         def limit():
             if c.chance(p["small_limits"]):
